@@ -493,14 +493,16 @@ MAXDNF = 150  # generated expressions keep every intermediate normal form below 
 REGIMES = [("easy", 0.3), ("data", 0.14), ("seq", 0.14), ("mixed", 0.17), ("vars", 0.14), ("subq", 0.08), ("negseq", 0.03)]
 
 
+def setup():
+    """extraction of theories/Query.v + OCaml driver (shared by C03 and C14); cached by content hash"""
+    return build_model(PROP, EXTRACT, os.path.join(ROOT, "ocaml/c03"), MODEL_DEPS)[0]
+
+
 def main(tier, seed, replay=None):
     t0 = time.time()
-    have_model = os.path.exists(os.path.join(COQ, "extract", EXTRACT))
-    have_props = os.path.exists(os.path.join(COQ, "props", PROP + ".v"))
-    proof = Proof(PROP) if have_props else None
-    exe = None
-    if have_model:
-        exe, _ = build_model(PROP, EXTRACT, os.path.join(ROOT, "ocaml/c03"), MODEL_DEPS)
+    have_model = True
+    proof = Proof(PROP, tier=tier)
+    exe = setup()
     rng = random.Random(seed)
     ncases = int(os.environ.get("VERIF_NCASES", 4000 if tier == "quick" else 60000))
     nvals = 48 if tier == "quick" else 96
